@@ -108,6 +108,27 @@ pub fn run(a: &Args, rep: &mut Report) {
         };
     }
     for_each_subject!(m);
+    // strings whose length needs the 8-byte head: len() against the reference head length
+    // (payload = read-only anonymous zero mapping, nothing is written anywhere)
+    if a.shard == 2 % a.nshards {
+        for n in [(1u64 << 32) - 1, 1 << 32, (1 << 32) + 1] {
+            if let Some(region) = mon::ZeroRegion::new(n as usize) {
+                let data = region.as_slice();
+                let want = 1 + vcore::refcbor::min_width(n) as u64 + n;
+                let bs: &minicbor::bytes::ByteSlice = data.into();
+                let s = unsafe { std::str::from_utf8_unchecked(data) };
+                for (what, got) in [("&ByteSlice", minicbor::len(bs) as u64), ("&str", minicbor::len(s) as u64)] {
+                    rep.eval();
+                    if got != want {
+                        rep.violation(&format!("{}|builtin|{}|huge", ID, what), J::obj().with("what", J::s(format!("len() of a {} byte {} is {}, the encoding has {} bytes", n, what, got, want))), vec![]);
+                    } else {
+                        rep.count("len() of strings of 2^32-1 .. 2^32+1 bytes");
+                    }
+                }
+                rep.enumerated(2);
+            }
+        }
+    }
     // slices and references
     for i in 0..n / 4 {
         if !a.mine(i) {
